@@ -265,6 +265,18 @@ class ExprMixin(object):
         owner, fn = self.src.lookup_method(cls, "__getattr__")
         if owner is not None:
             return self.call_method(st, acc, base, "__getattr__", [self.mk_str(attr)], {}, node)
+        # 5b. a field declared (shape) by exactly one subclass line of the static class: checked downcast
+        #     (Python raises AttributeError on any other object, so "is an instance of that subclass" is an obligation)
+        if cls in self.src.classes:
+            subs = [s_ for s_ in self.src.subclasses(cls) if s_ != cls and attr in self.shapes.get(s_, {})]
+            tops = [c for c in subs if not any(o != c and self.src.is_subclass(c, o) for o in subs)]
+            if len(tops) == 1:
+                test = self.class_test(u.r(base.z), tops[0])
+                if not self.in_spec:
+                    self.oblige(st, "type", self.auto_label(node, "cast"), test,
+                                note="receiver of .%s is a %s (static class %s has no such attribute)" % (attr, tops[0], cls))
+                st.assume(test)
+                return self.get_attr(st, SV(base.z, "ref", cls=tops[0], elem=base.elem), attr, acc, node)
         # 6. undeclared instance attribute
         return st, self.read_field(st, base, attr)
 
